@@ -349,6 +349,10 @@ AA_FRAGS = ['C', 'CC', 'COC', 'CC(C)C', 'C=C', 'CCO', 'N', 'O', 'CC(=O)O', 'C1CC
             'C(F)C', 'CCl', 'C#C', 'C1=CC=CC=C1', '[NH3+]C', 'C[O-]', 'c1ccsc1', '[C;w=2.0]C', 'C[H]', 'OC(F)Cl', 'cc']
 
 
+CG_FRAGS_SQ = ['[!][#X][#Y][!]', '[!][#Y][#X][!]', '[#X][#Y][!]', '[!][#Y][#Z]', '[!][#X][!]', '[!][#X][#Y][#Z][!]', '[$][#X][#Y][!]']
+AA_FRAGS_SQ = ['[!]OC[!]', '[!]CC[!]', 'OC[!]', '[!]CN', '[!]C[!]', '[!]CCC[!]', '[!]C(C)C[!]', '[$]CC[!]']
+
+
 def rand_frag_block(rng, names, all_atom, kinds='$$$><', max_desc=3, squash=False):
     pool = AA_FRAGS if all_atom else CG_FRAGS
     defs = []
@@ -375,7 +379,7 @@ def with_multiplier(rng, text):
     return text
 
 
-def rand_multilevel(rng, levels, last_all_atom, squash=False, coarse_squash=False):
+def rand_multilevel(rng, levels, last_all_atom, squash=False, coarse_squash=False, squash_chain=False):
     """a complete CGsmiles string with `levels` fragment blocks; names at level i+1 are the node
     names used by the fragments of level i"""
     names0 = rng.sample(['A', 'B', 'C', 'D'], rng.randint(1, 3))
@@ -384,7 +388,13 @@ def rand_multilevel(rng, levels, last_all_atom, squash=False, coarse_squash=Fals
     cur = names0
     for lv in range(levels):
         aa = last_all_atom and lv == levels - 1
-        defs = rand_frag_block(rng, cur, aa, squash=squash and (aa or coarse_squash))
+        if squash_chain:
+            # every fragment carries the squash operator on its first and last atom, on EVERY level, so that
+            # neighbouring fragments share an atom level after level (stale per-level bookkeeping shows up here)
+            pool = AA_FRAGS_SQ if aa else CG_FRAGS_SQ
+            defs = ['#%s=%s' % (nm, rng.choice(pool)) for nm in cur]
+        else:
+            defs = rand_frag_block(rng, cur, aa, squash=squash and (aa or coarse_squash))
         blocks.append(defs)
         if not aa:
             import re
